@@ -213,6 +213,8 @@ def run_rc_program(pid, tier, cfg):
         tcfg["workers"] = int(os.environ["VF_WORKERS"])
     bins = build_targets([cfg["target"]])
     binpath = bins[cfg["target"]]
+    if cfg.get("also"):
+        build_targets([cfg["also"]["target"]])  # regression replays may name it
     known = [k for k in load_known() if k.get("property") == pid and k.get("status") == "known"]
     violations = []
     nreg, bad = run_regressions(cfg, binpath, pid)
@@ -315,6 +317,29 @@ def run_rc_program(pid, tier, cfg):
     }
     cov.update(extra_cov)
     for k in known:
+        # a listed finding is reported only while its probe (a committed replay file run with the exclusion
+        # switched off) still fails; the exploration itself excludes the listed inputs by construction
+        probe = k.get("probe")
+        if probe:
+            ppath = os.path.join(VERIF, probe)
+            head = open(ppath, errors="replace").read(400)
+            env = sanitizer_env()
+            tgt = cfg["target"]
+            for line in head.splitlines():
+                if line.startswith("#! env ") and "=" in line:
+                    kk, vv = line[7:].strip().split("=", 1)
+                    env[kk] = vv
+                if line.startswith("#! target "):
+                    tgt = line.split()[2]
+            pbin = build_targets([tgt])[tgt]
+            try:
+                r = subprocess.run([pbin, "--replay", pid, ppath], stdout=subprocess.PIPE, stderr=subprocess.STDOUT, env=env, timeout=300, text=True, errors="replace")
+                still = r.returncode != 0
+            except subprocess.TimeoutExpired:
+                still = True
+            if not still:
+                log("note: listed finding no longer reproduces (%s); not reported" % probe)
+                continue
         log("KNOWN-FINDING: property=%s %s" % (pid, k.get("what", "")))
     write_evidence(pid, tier, cfg, cov, time.time() - t0, len(violations))
     for path, msg in violations:
